@@ -135,8 +135,8 @@ PROPS = {
     "C05": {"profile": "measure", "oracles": [lambda r: O.judge_measure(r, "C05"), O.judge_dead_probe],
             "post_step": _dead_probe_hook, "free_mix": 0.15},
     "C06": {"profile": "kraus", "oracles": [O.judge_c06]},
-    "C07": {"profile": "invariants", "oracles": [O.judge_c07]},
+    "C07": {"profile": "invariants", "oracles": [O.judge_c07], "opts": {"multi_ce": 0.15, "lifecycle": 0.15}},
     "C09": {"profile": "povm", "oracles": [O.judge_c09], "free_mix": 0.2},
-    "C13": {"profile": "graph", "oracles": [O.judge_c13], "opts": {"env_max": 4, "multi_ce": 0.5}},
-    "C20": {"profile": "blocks", "oracles": [O.judge_c20], "opts": {"multi_ce": 0.3}},
+    "C13": {"profile": "graph", "oracles": [O.judge_c13], "opts": {"env_max": 4, "multi_ce": 0.5, "lifecycle": 0.2}},
+    "C20": {"profile": "blocks", "oracles": [O.judge_c20], "opts": {"multi_ce": 0.25, "lifecycle": 0.25}},
 }
